@@ -76,15 +76,27 @@ fn c03_ws_server(case: &Case) {
     let mut reqs = gen_requests(draw_len());
     sanitize(&mut reqs);
     let expect_n = reqs.iter().filter(|r| model(r).ec.is_some()).count();
-    case.sample(json!({"middlewares": n_mw, "requests": reqs.iter().map(|r| format!("{}{} v{} q{} b{} {}B", if r.notify {"notify "} else {""}, r.what, r.version, r.qfmt, r.bfmt, r.body.len())).collect::<Vec<_>>()}));
+    let cap = pick(&[0usize, 0, 0, 1, 2, 16]);
+    if cap != 0 {
+        // make saturation likely: more off-reader traffic, notifies included
+        for r in reqs.iter_mut() {
+            if r.version == 1 && r.qfmt == 1 && simkernel::choose(3) == 0 && crate::families::c03_common::routed_path(&r.what) && r.what.starts_with("/json/echo") {
+                r.what = "/bjson/echo".to_string();
+                r.query = b"/bjson/echo".to_vec();
+            }
+        }
+    }
+    case.sample(json!({"middlewares": n_mw, "offreader_cap": cap, "requests": reqs.iter().map(|r| format!("{}{} v{} q{} b{} {}B", if r.notify {"notify "} else {""}, r.what, r.version, r.qfmt, r.bfmt, r.body.len())).collect::<Vec<_>>()}));
     let case = case.clone();
     aio::run_or_error(&case.clone(), 3_600, async move {
         let counters = Arc::new(Counters::default());
         let router = build_router(&counters, n_mw, mw_first);
         let listener = WebSocketServer::listen("127.0.0.1:0").await.unwrap();
         let addr = listener.local_addr().unwrap();
-        // unlimited off-reader slots: saturation replies are C16's subject, not C03's
-        let server = WebSocketServer::new(router).with_offreader_limit(0).with_outbound_capacity(256);
+        // mostly unlimited off-reader slots (saturation replies are C16's subject); with a
+        // finite cap an off-reader request may legitimately be answered ResourceExhausted
+        // instead, and the lighter oracle below applies
+        let server = WebSocketServer::new(router).with_offreader_limit(cap).with_outbound_capacity(256);
         let srv = tokio::spawn(async move {
             let _ = server.serve_listener(listener, "/repe").await;
         });
@@ -110,8 +122,32 @@ fn c03_ws_server(case: &Case) {
         let responses = inbox.frames();
         case.check(!inbox.ended(), "connection-lost", || "the server ended the connection during a well-framed request sequence".into());
         check_inbox_clean(&case, "WebSocketServer", &inbox);
-        if !check_responses(&case, "WebSocketServer", &reqs, &responses, &counters, n_mw, false) {
-            return;
+        if cap == 0 {
+            if !check_responses(&case, "WebSocketServer", &reqs, &responses, &counters, n_mw, false) {
+                return;
+            }
+        } else {
+            // exactly one response per non-notify request, none per notify, whatever the cap did
+            let mut want: Vec<u64> = reqs.iter().filter(|r| model(r).ec.is_some()).map(|r| r.id).collect();
+            let mut got: Vec<u64> = responses.iter().map(|f| f.id).collect();
+            want.sort();
+            got.sort();
+            if !case.check(got == want, "response-multiset", || format!("WebSocketServer (off-reader cap {cap}): response ids {got:?}, expected exactly one per non-notify request {want:?}; notifies {:?}", reqs.iter().filter(|r| r.notify).map(|r| (r.id, &r.what)).collect::<Vec<_>>())) {
+                return;
+            }
+            for r in &reqs {
+                let e = model(r);
+                let Some(ec) = e.ec else { continue };
+                let Some(f) = responses.iter().find(|f| f.id == r.id) else { continue };
+                let off = r.version == 1 && r.qfmt == 1 && OFF_READER_ROUTES.contains(&String::from_utf8_lossy(&r.query).as_ref());
+                let ok = ec == u32::MAX || f.ec == ec || (off && f.ec == repe::ErrorCode::ResourceExhausted as u32);
+                if !case.check(ok && f.query == e.query, "wrong-error-code", || format!("WebSocketServer (off-reader cap {cap}): request {} ({}) answered ec {} query {:?}, model ec {ec}", r.id, r.what, f.ec, f.query_str())) {
+                    return;
+                }
+                if f.ec == repe::ErrorCode::ResourceExhausted as u32 {
+                    case.probe("saturation_reply_in_sequence");
+                }
+            }
         }
         // requests handled inline on one connection are answered in arrival order
         let inline_ids: Vec<u64> = reqs.iter().filter(|r| model(r).ec.is_some() && !(r.version == 1 && r.qfmt == 1 && OFF_READER_ROUTES.contains(&String::from_utf8_lossy(&r.query).as_ref()))).map(|r| r.id).collect();
@@ -129,7 +165,7 @@ fn c03_ws_server(case: &Case) {
             let _ = AsyncServer::new(router2).serve(l2).await;
         });
         if let Some(tcp_responses) = tcp_pipeline(a2, &reqs, expect_n).await {
-            for t in &tcp_responses {
+            for t in tcp_responses.iter().filter(|_| cap == 0) {
                 if let Some(w) = responses.iter().find(|f| f.id == t.id) {
                     let same = w.ec == t.ec && w.query == t.query && w.query_format == t.query_format && w.body_format == t.body_format && w.body == t.body && w.version == t.version && w.notify == t.notify;
                     if !case.check(same, "transports-disagree", || {
